@@ -102,6 +102,34 @@ def same_process_twice(ctx, rng, quick):
     ctx.count_clause("repro.same_process", n)
 
 
+def no_reseed_stage(ctx, seed):
+    """library code may draw from the global generators but must never seed them or set their state"""
+    import random as _random
+    import numpy as _np
+    from harness.proxies import Tape
+    from harness import repro_worker as RW
+    n = 0
+    _random.seed(seed)
+    _np.random.seed(seed % 2 ** 32)
+    for cfg in RW.matrix():
+        with Tape(mode="log") as tape:
+            state_before = _random.getstate()
+            try:
+                # run_one seeds the generators itself first (harness code): those two calls are expected
+                RW.run_one(cfg, seed % 1000 + 3, 6)
+            except Exception:
+                pass
+        n += 1
+        lib = tape.reseeds[2:] if tape.reseeds[:2] == ["random.seed", "np.random.seed"] else tape.reseeds
+        if lib:
+            ctx.violation("repro.no_reseed", "config=%s" % "|".join(map(str, cfg)),
+                          "library code called %s: constructing or using library objects must only *draw* from the global "
+                          "generators, never re-seed them" % sorted(set(lib)), {"config": list(cfg)})
+    ctx.add_stage("no library object construction / call re-seeds or sets the state of the global generators", "tape", configs=n)
+    ctx.count_clause("repro.no_reseed", n)
+    ctx.evaluations += n
+
+
 def run(tier, seed):
     ctx = core.Ctx(PID, tier, seed)
     quick = tier == "quick"
@@ -132,6 +160,7 @@ def run(tier, seed):
             t = st_traces[tid]
             ctx.violation("trace." + clause, "kind=%s" % t["kind"], "update %d (cap=%d seed=%d): slot replaced without a matching draw from the "
                           "global generators: %s" % (l, t["cap"], t["seed"], t["ev"][l - 1]), {k: t[k] for k in ("kind", "cap", "seed")})
+    no_reseed_stage(ctx, seed)
     same_process_twice(ctx, rng, quick)
     two_process_experiment(ctx, seed, quick)
     ctx.assume("same interpreter configuration (PYTHONHASHSEED fixed); river's trees are reproducible given their seed")
